@@ -714,7 +714,10 @@ def read_mangle_polygons(filename):
             data = [float(d) for d in re.split(r'\s+', cap.strip())]
             metad['x'].append(data[0:3])
             metad['cm'].append(data[-1])
-        metad['x'] = np.array(metad['x'])
+        #
+        # A polygon with zero caps (the whole sky) has no cap lines.
+        #
+        metad['x'] = np.array(metad['x'], dtype=np.float64).reshape((-1, 3))
         assert metad['x'].shape == (metad['caps'], 3)
         metad['cm'] = np.array(metad['cm'])
         assert metad['cm'].shape == (metad['caps'],)
